@@ -20,9 +20,13 @@ TRUSTED = [
     'C16: the calendar is modelled (NdnModel/Calendar.lean transcribes CPython\'s _ymd2ord/_ord2ymd, datetime + timedelta(seconds=n), replace(year=...), astimezone(UTC) for a fixed offset in whole minutes) and tied to CPython\'s datetime by the calendar stream of this run; an instant enters the model as (date.toordinal(), second of day, microsecond); expire_sec is an integer; strftime(\'%Y%m%dT%H%M%S\') is modelled as zero-padded decimal fields, which is what glibc prints for the years 1000..9999 only (validity periods reaching below 1000-01-01 = ordinal 364878 are answered `skip` by the model and not compared); zones with a variable offset (DST) are outside the model',
     'C16: the signer is abstract as in C01 (its output is recorded); verification uses the real pycryptodomex verifiers in the oracle',
 ]
-RULE = ('certificates produced by self_sign, sign_req and derive_cert for random key names (given as component list, URI '
-        'text or encoded Name; zero components, with/without KEY suffix), issuer ids given as text (incl. percent-escapes, '
-        'typed and alias forms; expected component computed from the URI scheme) or as component, a sweep of every kind '
+RULE = ('certificates produced by self_sign, sign_req and derive_cert for random key names (given as component list, tuple, '
+        'list of URI strings, mixed bytes/str/bytearray/memoryview list, URI text or encoded Name in bytes / bytearray / '
+        'memoryview; zero components, with/without KEY suffix), issuer ids given as text (incl. percent-escapes, '
+        'typed and alias forms; expected component computed from the URI scheme) or as component (bytes / bytearray / '
+        'memoryview), public keys in bytes / bytearray / memoryview, the signer object having issued 0..2 other certificates '
+        'before, its private key given as DER or PEM (HMAC / Ed25519: bytes, bytearray, memoryview), its key locator as URI text, '
+        'component list or encoded Name, EC P-224 issuers too, a sweep of every kind '
         'of year (weekday of 1 Jan x leap) x 29 Dec..3 Jan as requested start, requested end, now, now+10d, now+20y, month '
         'ends, microseconds, UTC-aware starts, a machine zone other than UTC, total certificate size swept across 253 and '
         '65536 for every signer, EC P-256/384/521, RSA-2048 and Ed25519 subject keys and issuer signers (plus HMAC and a synthetic signer '
@@ -54,7 +58,9 @@ LEVEL_NOTE = 'Model = code sampled; the calendar is modelled and compared with C
 TECHNIQUE = 'Lean 4 proof (byte-level assembly + generic codec round trip + proleptic Gregorian calendar arithmetic) + model/implementation correspondence with real keys and with CPython datetime'
 DESIGN_REF = 'DESIGN.md section 7, C16'
 
-ISSUERS = [['ec256'], ['ec256'], ['ec384'], ['ec521'], ['rsa2048'], ['ed25519'], ['hmac'], ['digest', 0]]
+ISSUERS = [['ec256'], ['ec256'], ['ec384'], ['ec521'], ['ec224'], ['rsa2048'], ['ed25519'], ['hmac'], ['digest', 0]]
+KN_FORMS = ['list', 'list', 'str', 'wire', 'strlist', 'mixed', 'tuple', 'wire-ba', 'wire-mv']
+BUF_FORMS = ['bytes', 'bytes', 'bytearray', 'mv']
 
 
 def _leap(y):
@@ -106,7 +112,24 @@ def _rand_time(rng):
 def _extras(rng):
     """dimensions added by hardening (absent keys mean the old behaviour, so old replays stay valid)"""
     return {'tz': rng.choice([None, None, 0, 0, 5, -8, 5.75, 14, -12]), 'us': rng.choice([0, 0, 1, 500000, 999999]),
-            'local_off': rng.choice([-11, -5, 1, 9, 14]), 'kn_form': rng.choice(['list', 'list', 'str', 'wire'])}
+            'local_off': rng.choice([-11, -5, 1, 9, 14]), 'kn_form': rng.choice(KN_FORMS)}
+
+
+def _extras2(rng, issuer):
+    """second hardening round: the signer object has issued 0..2 certificates before this one; the signer's private key
+    handed over as DER or PEM, its key locator as URI text / component list / encoded Name (incl. typed and empty
+    components); the issuer-id component and the public key in a bytes / bytearray / memoryview buffer"""
+    e = {'prior': rng.choice([0, 0, 1, 1, 2]), 'iid_form': rng.choice(BUF_FORMS), 'pub_form': rng.choice(BUF_FORMS)}
+    if issuer[0].startswith(('ec', 'rsa')) and rng.random() < 0.3:
+        e['key_form'] = 'pem'
+    if issuer[0] in ('hmac', 'ed25519') and rng.random() < 0.3:
+        e['key_form'] = rng.choice(['bytearray', 'mv'])
+    if issuer[0] not in ('digest', 'synth') and rng.random() < 0.5:
+        e['kl'] = [c.hex() for c in PK.rand_name(rng)] + ['08034b4559', PK.rand_comp(rng).hex()]
+        e['kl_form'] = rng.choice(['list', 'str', 'wire'])
+        if e['kl_form'] == 'str' and any(c[:2] in ('32', '34', '36', '38', '3a') for c in e['kl']):
+            e['kl_form'] = 'wire'
+    return e
 
 
 def _base(rng, **kw):
@@ -134,8 +157,9 @@ def _sweep(rng, tier):
                 y2 += 28
             b = [y2, mo2, d2] + list(rng.choice(HMS))
             common = {'issuer': rng.choice(FAST_ISSUERS), 'tz': rng.choice([None, 0, 9, -3.5]), 'us': rng.choice([0, 999999]),
+                      'prior': rng.choice([0, 1]),
                       'issuer_id': rng.choice([['text', 'ca'], ['comp', '0802' + b'ca'.hex()]]),
-                      'kn_form': rng.choice(['list', 'str', 'wire'])}
+                      'kn_form': rng.choice(KN_FORMS[1:]), 'pub_form': rng.choice(BUF_FORMS)}
             yield _base(rng, fn='derive', start=a, expire=_secs(a, b), **common)
             if tier != 'quick' or (i + j) % 2 == 0:
                 yield _base(rng, fn='req', now=a, **common)
@@ -163,7 +187,8 @@ def _sizes(rng, tier):
             fn = rng.choice(['derive', 'derive', 'self', 'req'])
             kn = [c.hex() for c in PK.rand_name(rng)[:2] if len(c) < 40] + ['08034b4559', '0801' + '%02x' % rng.randrange(256)]
             proto = _base(rng, fn=fn, issuer=sg, key_name=kn, start=_rand_time(rng), now=[2024, 12, 31, 23, 59, 59],
-                          issuer_id=rng.choice([['text', 'ca'], ['comp', PK.rand_comp(rng).hex()]]))
+                          issuer_id=rng.choice([['text', 'ca'], ['comp', PK.rand_comp(rng).hex()]]),
+                          prior=rng.choice([0, 1]), iid_form=rng.choice(BUF_FORMS), pub_form=rng.choice(BUF_FORMS))
             l0 = _measure(proto)
             if l0 is None:
                 l0 = 150
@@ -211,7 +236,8 @@ def _random_case(rng, tier):
                                                       rng.randint(0, 2 ** 48), rng.randint(0, 2 ** 48)]),
             'seed': rng.getrandbits(32)}
     case.update(_extras(rng))
-    if case['kn_form'] == 'str' and any(c[:2] in ('32', '34', '36', '38', '3a') for c in key_name):
+    case.update(_extras2(rng, issuer))
+    if case['kn_form'] in ('str', 'strlist', 'mixed') and any(c[:2] in ('32', '34', '36', '38', '3a') for c in key_name):
         # naming-convention components with a value that is not a number have no URI text (Name.to_str/from_str is
         # another property's business): hand those over as an encoded Name instead
         case['kn_form'] = 'wire'
@@ -491,21 +517,55 @@ def _cal_line(case):
     return 'C16 cal %s %s %d' % (op, inst, case[{'add': 'n', 'utc': 'off', 'addyears': 'k'}[op]])
 
 
+def _buf(b, form):
+    """the same bytes as the caller may hold them: bytes, a bytearray, a memoryview into a larger writable buffer"""
+    if form == 'bytearray':
+        return bytearray(b)
+    if form == 'mv':
+        return memoryview(bytearray(b'\x00\x00' + b + b'\x00'))[2:2 + len(b)]
+    return b
+
+
+def _requested(case):
+    """the requested instants (UTC calendar fields), worked out apart from the call; (None, None) when not representable"""
+    us = case.get('us', 0)
+    try:
+        now = _dt.datetime(*case['now'], us, tzinfo=_dt.timezone.utc)
+        if case['fn'] == 'self':
+            return [1970, 1, 1, 0, 0, 0], _fields(now.replace(year=now.year + 20))
+        if case['fn'] == 'req':
+            return _fields(now), _fields(now + _dt.timedelta(days=10))
+        return case['start'], _fields(_dt.datetime(*case['start'], us) + _dt.timedelta(seconds=case['expire']))
+    except (ValueError, OverflowError):
+        return None, None
+
+
 def run_impl(case):
     if case['fn'] == 'cal':
         return {'made': ['cal'], 'cal': _run_cal(case)}
     from ndn.app_support import security_v2 as sv
     from ndn import encoding as enc
     out = {}
-    inner = PK.make_signer(case['issuer'])
+    kl = None
+    if case.get('kl') is not None:
+        kl = [bytes.fromhex(c) for c in case['kl']]
+        kl = enc.Name.to_str(kl) if case.get('kl_form') == 'str' else bytes(enc.Name.to_bytes(kl)) if case.get('kl_form') == 'wire' else kl
+    inner = PK.make_signer(case['issuer'], key_name=kl, key_form=case.get('key_form'))
     rec = PK.Recorder(inner)
     key_name = [bytes.fromhex(c) for c in case['key_name']]
     form = case.get('kn_form', 'list')
     if form == 'str':
         key_name = enc.Name.to_str(key_name)
-    elif form == 'wire':
-        key_name = bytes(enc.Name.to_bytes(key_name))
+    elif form.startswith('wire'):
+        key_name = _buf(bytes(enc.Name.to_bytes(key_name)), {'wire': 'bytes', 'wire-ba': 'bytearray', 'wire-mv': 'mv'}[form])
+    elif form == 'strlist':
+        key_name = [enc.Component.to_str(c) for c in key_name]
+    elif form == 'mixed':
+        key_name = [(c, enc.Component.to_str(c), bytearray(c), memoryview(c))[i % 4] for i, c in enumerate(key_name)]
+    elif form == 'tuple':
+        key_name = tuple(key_name)
     pub = _pub_key(case)
+    pub_arg = _buf(pub, case.get('pub_form', 'bytes'))
     us = case.get('us', 0)
     now = _dt.datetime(*case['now'], us, tzinfo=_dt.timezone.utc)
     local_off = case.get('local_off')
@@ -521,17 +581,25 @@ def run_impl(case):
     sv.datetime, sv.timestamp = _DT, (lambda: case['ts'])
     try:
         try:
+            # second use: the same signer object has issued other certificates before (an application's signer lives as
+            # long as its keychain); what it did then must not show in this certificate
+            for i in range(case.get('prior', 0)):
+                if i % 2 == 0:
+                    sv.derive_cert('/prior/KEY/%d' % i, 'earlier', b'\x30' * (50 + i), inner,
+                                   _dt.datetime(2001, 2, 3, 4, 5, 6), 77)
+                else:
+                    sv.self_sign([b'\x08\x05prior', b'\x08\x03KEY', b'\x08\x01\x01'], b'\x31' * 91, PK.Recorder(inner))
             if case['fn'] == 'self':
-                name, wire = sv.self_sign(key_name, pub, rec)
+                name, wire = sv.self_sign(key_name, pub_arg, rec)
                 issuer = b'\x08\x04self'         # NDN certificate naming: the issuer id of a self-signed certificate
             elif case['fn'] == 'req':
-                name, wire = sv.sign_req(key_name, pub, rec)
+                name, wire = sv.sign_req(key_name, pub_arg, rec)
                 issuer = bytes(sv.SIGN_REQ_COMPONENT)
             else:
                 kind, val = case['issuer_id']
-                iid = val if kind == 'text' else bytes.fromhex(val)
+                iid = val if kind == 'text' else _buf(bytes.fromhex(val), case.get('iid_form', 'bytes'))
                 start = _start_dt(case)
-                name, wire = sv.derive_cert(key_name, iid, pub, rec, start, case['expire'])
+                name, wire = sv.derive_cert(key_name, iid, pub_arg, rec, start, case['expire'])
                 issuer = _uri_comp(val) if kind == 'text' else bytes.fromhex(val)
             wire = bytes(wire)
             out['made'] = ['ok', wire.hex()]
@@ -547,16 +615,7 @@ def run_impl(case):
         sv.datetime, sv.timestamp = old
     # the requested instants (UTC), worked out apart from the call: None when they are not representable (then a
     # certificate has no business existing, which the comparison with the model reports)
-    try:
-        if case['fn'] == 'self':
-            t0, t1 = [1970, 1, 1, 0, 0, 0], _fields(now.replace(year=now.year + 20))
-        elif case['fn'] == 'req':
-            t0, t1 = _fields(now), _fields(now + _dt.timedelta(days=10))
-        else:
-            t0 = case['start']
-            t1 = _fields(_dt.datetime(*case['start'], us) + _dt.timedelta(seconds=case['expire']))
-    except (ValueError, OverflowError):
-        t0 = t1 = None
+    t0, t1 = _requested(case)
     out.update({'issuer': issuer.hex(), 't0': t0, 't1': t1, 'pub': pub.hex(),
                 'version': _version_comp(case['ts']).hex(),
                 'reserved': rec.reserved, 'sig': rec.sig.hex() if rec.sig is not None else None,
@@ -639,7 +698,15 @@ def impl_obs(impl):
 
 
 def oracle(case, impl):
-    if impl['made'][0] in ('calendar', 'cal'):
+    if impl['made'][0] == 'calendar':
+        # ValueError / OverflowError are the calendar's answers (29 Feb + 20 years, beyond year 9999 in the zone the
+        # arithmetic is done in): with every requested instant at least a year inside 1..9999 they are not
+        t0, t1 = _requested(case)
+        if t0 is not None and 1001 <= t0[0] <= 9998 and 1001 <= t1[0] <= 9998 \
+                and not (case['fn'] == 'self' and case['now'][1:3] == [2, 29]):
+            return f"issuing a certificate raised {impl['made'][1]} although the requested validity period is representable"
+        return None
+    if impl['made'][0] == 'cal':
         return None
     if impl['made'][0] == 'err':
         s = case['issuer']
@@ -662,7 +729,10 @@ def oracle(case, impl):
         return f"validity period {c['not_before']}..{c['not_after']} does not encode the requested instants {_fmt(impl['t0'])}..{_fmt(impl['t1'])}"
     k = case['issuer'][0]
     want_kl = {'hmac': '/k/hmac', 'rsa2048': '/k/rsa', 'ed25519': '/k/ed'}.get(k, '/k/' + k if k.startswith('ec') else None)
-    if want_kl is not None:
+    if want_kl is not None and case.get('kl') is not None:
+        if c['key_locator'] != list(case['kl']):
+            return 'key locator is not the one configured in the issuing signer'
+    elif want_kl is not None:
         from ndn.encoding import Name
         if c['key_locator'] != [bytes(x).hex() for x in Name.from_str(want_kl)]:
             return 'key locator is not the one configured in the issuing signer'
@@ -704,6 +774,12 @@ def tags(case, impl):
             t.append('issuer-id:' + case['issuer_id'][0] + ('-escaped' if '%' in case['issuer_id'][1] or '=' in case['issuer_id'][1] else ''))
             t.append('tz:' + str(case.get('tz')))
         t.append('kn-form:' + case.get('kn_form', 'list'))
+        t.append('prior-certificates-of-the-signer:%d' % case.get('prior', 0))
+        t.append('key-form:' + case.get('key_form', 'der'))
+        t.append('key-locator:' + (case.get('kl_form', 'list') if case.get('kl') is not None else 'default-text'))
+        t.append('pub-form:' + case.get('pub_form', 'bytes'))
+        if case['fn'] == 'derive' and case['issuer_id'][0] == 'comp':
+            t.append('issuer-comp-form:' + case.get('iid_form', 'bytes'))
         t.append('kn-comps:%d' % min(len(case['key_name']), 3))
         t.append('verify:' + str(impl['verify']))
     return t
